@@ -135,7 +135,7 @@ def write_evidence(prop, tier, seed, t0, R, C, violations, note=""):
             relevant_steps=n_steps,
             distinct_nontrivial=distinct,
             histories_exercising_property=hists,
-            rule="histories are generated by harness/gen.go from VERIF_SEED (profiles fixed/batch/multi/hooks/genesis/fault/malformed/crowd/extreme/heavy) after the corpus; every operation is executed on the real keeper, replayed on the extracted model from the implementation's own pre-state, and judged by the extracted checker of this property. A step is relevant when it carries one of the tags %s; distinct_nontrivial counts distinct per-history sequences of such tag sets." % PROPS[prop]["tags"],
+            rule="histories are generated by harness/gen.go from VERIF_SEED (profiles fixed/batch/multi/hooks/genesis/fault/malformed/crowd/extreme/heavy) after the corpus; every operation is executed on the real keeper (in every second shard after a simulation of the same message on a discarded branch of the state), replayed on the extracted model from the implementation's own pre-state, and judged by the extracted checker of this property. A step is relevant when it carries one of the tags %s; distinct_nontrivial counts distinct per-history sequences of such tag sets." % PROPS[prop]["tags"],
             op_histogram={k[3:]: v for k, v in s.items() if k.startswith("op.")},
             tag_histogram={k[3:]: v for k, v in s.items() if k.startswith("nt.")},
             samples=samples_from(R, prop) if R else [],
